@@ -7,7 +7,7 @@ that belong to C02.
 from harness import auction
 
 PROPS = {'C02'}
-KQ, KT = 6, 8
+KQ, KT = 6, 7
 
 
 def cases(tier):
